@@ -6,7 +6,7 @@ MODS = ["adj", "buffers_abs", "receiver", "parser"]
 FUNCS = ["receiver.FixedStreamReceiver.received", "receiver.ChunkedReceiver.received", "parser.HTTPRequestParser.received",
          "parser.HTTPRequestParser.parse_header", "parser.get_header_lines", "parser.split_uri"]
 
-KEEP = ("raises:", "raises-only", "coverage:", "frame:", "result-range", "progress", "variant", "limit", "completed-returns-0", "error-completes", "inv:", "inv-", "/pre:",
+KEEP = ("C06-", "raises:", "raises-only", "coverage:", "frame:", "result-range", "progress", "variant", "limit", "completed-returns-0", "error-completes", "inv:", "inv-", "/pre:",
         "not-completed-consumes-all", "body-count", "list-elem-fact")
 
 
